@@ -3,6 +3,7 @@ package pts
 import (
 	"bufio"
 	"errors"
+	"fmt"
 	"io"
 	"strconv"
 	"strings"
@@ -48,6 +49,7 @@ func ReadPointCloud(in io.Reader) (*modeling.Mesh, error) {
 	readColor := false
 
 	curLine := 0
+	fieldCount := -1
 	for scanner.Scan() && curLine < parsedCount {
 		line := strings.TrimSpace(scanner.Text())
 		if line == "" {
@@ -55,6 +57,18 @@ func ReadPointCloud(in io.Reader) (*modeling.Mesh, error) {
 		}
 
 		contents := strings.Fields(line)
+
+		// Every point needs at least a position, and a file keeps one column
+		// layout. Anything else (e.g. a line cut short) would leave zero
+		// values standing in for the missing fields.
+		if len(contents) < 3 {
+			return nil, fmt.Errorf("pts line %d has %d fields, expected at least 3", curLine+1, len(contents))
+		}
+		if fieldCount == -1 {
+			fieldCount = len(contents)
+		} else if len(contents) != fieldCount {
+			return nil, fmt.Errorf("pts line %d has %d fields, previous lines have %d", curLine+1, len(contents), fieldCount)
+		}
 
 		if len(contents) > 2 {
 			pos, err := ParseVec3(contents[0], contents[1], contents[2])
